@@ -56,7 +56,7 @@ class UnbinnedFit(FitBase):
         # add 'x' as an alias of 'data'
         self._nexus.add_alias("x", alias_for="data")
 
-        self._nexus.add_dependency("model", depends_on=("parameter_values"))
+        self._nexus.add_dependency("model", depends_on=("parameter_values", "data"))
 
     # -- private methods
 
